@@ -12,40 +12,46 @@
    `_refuted` = false on the faithful model of the tree, with the witness (each is replayed
    on the real code by checks/c10.py); `_partial` = proved for the trees that avoid the
    defective nodes:
-     emit_ok e     = every node has an opcode (fails for enum operands of < > <= >= == != %)
      strict e      = no && || ?: and no enum operand under a bit operator
-   (the former side condition no_enum_div — no enum operand under / or % — is gone: since
-   /repo 355bd8f the enum arms of expr_div_constred / expr_mod_constred fold a / -1 as -a and
-   a % -1 as 0 like the int arms, fold_never_crashes holds for all trees) *)
+   Side conditions that disappeared with fixes of /repo:
+     no_enum_div (no enum operand under / or %): since 355bd8f the enum arms of
+       expr_div_constred / expr_mod_constred fold a / -1 as -a and a % -1 as 0 like the int
+       arms, fold_never_crashes holds for all trees;
+     emit_ok (every node has an opcode): since 2ca194c + 053e24b an item enumerator operand is
+       typed int, < <= > >= % == != on enum operands have the int opcodes
+       (well_typed_trees_are_emitted), so fold_agrees_with_runtime holds for every tree the
+       typechecker accepts; its former refutation (E::C < 9 folded, the variable version
+       aborting in front/emit.c) became the regression statement
+       enum_compare_folds_like_runtime. *)
 From Coq Require Import ZArith Bool List.
 From NV Require Import Arith.NumTy Arith.VMOps Arith.Promote Arith.RtEval Arith.Constred
   Arith.ConstredProofs Arith.Enumred Arith.EnumredProofs.
 Local Open Scope Z_scope.
 
-Theorem fold_agrees_with_runtime_partial : forall e t e',
-  ty_of e = Some t -> emit_ok e = true -> fold e = FOk e' ->
+(* every tree the typechecker accepts can be emitted: rt_eval never is Crash EmitAssert on it *)
+Theorem well_typed_trees_are_emitted : forall e t, ty_of e = Some t -> emit_ok e = true.
+Proof. exact ConstredProofs.well_typed_is_emitted. Qed.
+Print Assumptions well_typed_trees_are_emitted.
+
+Theorem fold_agrees_with_runtime : forall e t e',
+  ty_of e = Some t -> fold e = FOk e' ->
   ty_of e' = Some t /\ rt_eval e' = rt_eval e.
-Proof. exact ConstredProofs.fold_agrees_with_runtime_partial. Qed.
-Print Assumptions fold_agrees_with_runtime_partial.
+Proof. exact ConstredProofs.fold_agrees_with_runtime. Qed.
+Print Assumptions fold_agrees_with_runtime.
 
 Theorem fold_literal_is_runtime_value : forall e t l,
-  ty_of e = Some t -> emit_ok e = true -> fold e = FOk (ELit l) ->
+  ty_of e = Some t -> fold e = FOk (ELit l) ->
   rt_eval e = Val (lit_val l) /\ lit_ty l = t.
 Proof. exact ConstredProofs.fold_literal_is_runtime_value. Qed.
 Print Assumptions fold_literal_is_runtime_value.
 
-(* without the emit_ok condition the statement is false: E::C < 9 is folded, the same
-   comparison on variables makes the emitter abort *)
-Theorem fold_agrees_with_runtime_refuted :
-  exists e t l, ty_of e = Some t /\ fold e = FOk (ELit l) /\ rt_eval e <> Val (lit_val l).
-Proof. exact ConstredProofs.fold_agrees_with_runtime_refuted. Qed.
-Print Assumptions fold_agrees_with_runtime_refuted.
-
-Theorem enum_compare_is_not_emitted :
+(* regression statement (/repo 2ca194c): E::C < 9 is folded to true and the same comparison on
+   variables is the int comparison of the index — it used to make the emitter abort *)
+Theorem enum_compare_folds_like_runtime :
   ty_of ex_enum_lt = Some TBool /\ fold ex_enum_lt = FOk (ELit (LBool true)) /\
-  rt_eval ex_enum_lt = Crash EmitAssert.
-Proof. exact ConstredProofs.enum_compare_is_not_emitted. Qed.
-Print Assumptions enum_compare_is_not_emitted.
+  rt_eval ex_enum_lt = Val (VInt 1).
+Proof. exact ConstredProofs.enum_compare_folds_like_runtime. Qed.
+Print Assumptions enum_compare_folds_like_runtime.
 
 (* regression statements for the defects fixed in the tree *)
 Theorem long_mul_folds_like_runtime :
@@ -67,19 +73,19 @@ Print Assumptions int_min_div_wraps_both_sides.
 
 (* every eagerly evaluated tree folds completely *)
 Theorem fold_total : forall e t,
-  ty_of e = Some t -> emit_ok e = true -> strict e = true ->
+  ty_of e = Some t -> strict e = true ->
   fold e = FReject \/ exists l, fold e = FOk (ELit l) /\ lit_ty l = t.
 Proof. exact ConstredProofs.fold_total. Qed.
 Print Assumptions fold_total.
 
 Theorem fold_div0_is_runtime_fault_partial : forall e t,
-  ty_of e = Some t -> emit_ok e = true -> strict e = true ->
+  ty_of e = Some t -> strict e = true ->
   fold e = FReject -> rt_eval e = Fault DivisionByZero.
 Proof. exact ConstredProofs.fold_div0_is_runtime_fault_partial. Qed.
 Print Assumptions fold_div0_is_runtime_fault_partial.
 
 Theorem fold_div0_is_runtime_fault_refuted :
-  exists e t v, ty_of e = Some t /\ emit_ok e = true /\ fold e = FReject /\ rt_eval e = Val v.
+  exists e t v, ty_of e = Some t /\ fold e = FReject /\ rt_eval e = Val v.
 Proof. exact ConstredProofs.fold_div0_is_runtime_fault_refuted. Qed.
 Print Assumptions fold_div0_is_runtime_fault_refuted.
 
@@ -96,10 +102,11 @@ Print Assumptions fold_never_crashes.
 (* regression statement for the enum arms of expr_div_constred / expr_mod_constred (/repo
    355bd8f): E::M / -1 and E::M % E::N with M = INT_MIN, N = -1 fold to the wrapped values *)
 Theorem enum_min_div_wraps_both_sides :
-  ty_of ex_enum_min_div = Some TInt /\ emit_ok ex_enum_min_div = true /\
+  ty_of ex_enum_min_div = Some TInt /\
   fold ex_enum_min_div = FOk (ELit (LInt (-2147483648))) /\
   rt_eval ex_enum_min_div = Val (VInt (-2147483648)) /\
-  fold ex_enum_min_mod = FOk (ELit (LInt 0)).
+  ty_of ex_enum_min_mod = Some TInt /\
+  fold ex_enum_min_mod = FOk (ELit (LInt 0)) /\ rt_eval ex_enum_min_mod = Val (VInt 0).
 Proof. exact ConstredProofs.enum_min_div_wraps_both_sides. Qed.
 Print Assumptions enum_min_div_wraps_both_sides.
 
@@ -113,13 +120,13 @@ Print Assumptions run_never_traps.
    the rest of enumred.c (?: reduced again, enumerator references) is tied by the
    correspondence runs of checks/c10.py only *)
 Theorem enumred_agrees_with_runtime_partial : forall e t e',
-  ty_of e = Some t -> emit_ok e = true -> int_only e = true ->
+  ty_of e = Some t -> int_only e = true ->
   efold e = FOk e' -> ty_of e' = Some t /\ rt_eval e' = rt_eval e.
 Proof. exact EnumredProofs.enumred_agrees_with_runtime_partial. Qed.
 Print Assumptions enumred_agrees_with_runtime_partial.
 
 Theorem enum_index_is_runtime_value : forall e z,
-  ty_of e = Some TInt -> emit_ok e = true -> int_only e = true ->
+  ty_of e = Some TInt -> int_only e = true ->
   enum_index e = Some z -> rt_eval e = Val (VInt z).
 Proof. exact EnumredProofs.enum_index_is_runtime_value. Qed.
 Print Assumptions enum_index_is_runtime_value.
@@ -142,6 +149,6 @@ Print Assumptions elab_well_typed.
 (* hypotheses are satisfiable: a mixed, eagerly evaluated, clean tree *)
 Example hypotheses_satisfiable :
   let e := EBin Add (EConv I2D (ELit (LInt 1))) (ELit (LDouble 4612811918334230528)) in
-  ty_of e = Some TDouble /\ emit_ok e = true /\ strict e = true /\
+  ty_of e = Some TDouble /\ strict e = true /\
   fold e = FOk (ELit (LDouble 4615063718147915776)).
 Proof. vm_compute. repeat split. Qed.
